@@ -75,6 +75,10 @@ def gen_case(rng):
             pre = [t0, t1, 0, F]
         if rng.random() < 0.06:
             pre = [t0, t0, f0, f1]        # empty (still unit-step) preselection of dumps
+        elif rng.random() < 0.15:
+            pre = [0, T, f0, f1]          # channels only (given without a dumps key on the public path)
+        elif rng.random() < 0.15:
+            pre = [t0, t1, 0, F]          # dumps only (given without a channels key)
     # the same load through TelstateDataSource (chunk_info alignment happens inside, with and without the
     # flag-upgrade step), and a second pair of loads from a view-returning in-memory store with whole arrays absent
     via_source = rng.choice([None, True, False, False])
@@ -84,6 +88,7 @@ def gen_case(rng):
         src_opts = dict(no_scale_key=rng.random() < 0.4, via_rdb=rng.random() < 0.35,
                         inherit=rng.random() < 0.5, van_vleck=rng.random() < 0.25,
                         l1=(dict(seed=rng.randrange(2 ** 31), legacy=rng.random() < 0.5,
+                                 short=rng.random() < 0.35,      # the flags stream stops one time chunk early
                                  missing=[g for g in grid if rng.random() < 0.3])
                             if (via_source and rng.random() < 0.5) else None))
     dict_absent = sorted(rng.sample(ARRAYS, rng.randint(1, 2))) if rng.random() < 0.3 else None
@@ -247,12 +252,18 @@ def load_via_source(case, store, chunk_info, prefix, tmp):
             fstream, fprefix = 'sdp_l1_flags', 'cb-sdp-l1-flags'
             arr = l1_flags_array(case)
             ch = tuple(tuple(c) for c in case['chunks']['flags'])
+            l1_missing = l1['missing']
+            if l1.get('short') and len(ch[0]) >= 2:
+                # whole trailing dumps missing from the attached flags stream: it has fewer dumps than the L0 stream
+                arr = arr[:arr.shape[0] - ch[0][-1]]
+                l1_missing = [g for g in l1_missing if g[0] < len(ch[0]) - 1]
+                ch = (ch[0][:-1],) + ch[1:]
             darr = da.from_array(arr, chunks=ch)
             fname = store.join(fprefix, 'flags')
             store.create_array(fname)
             store.put_dask_array(fname, darr).compute()
             starts = [np.cumsum([0] + list(c)) for c in case['chunks']['flags']]
-            for g in l1['missing']:
+            for g in l1_missing:
                 sl = tuple(slice(int(starts[d][i]), int(starts[d][i + 1])) for d, i in enumerate(g))
                 cname, _ = store.chunk_metadata(fname, sl)
                 os.remove(os.path.join(tmp, cname + '.npy'))
@@ -276,6 +287,10 @@ def load_via_source(case, store, chunk_info, prefix, tmp):
         if case['pre'] is not None:
             t0, t1, f0, f1 = case['pre']
             kw['preselect'] = dict(dumps=slice(t0, t1), channels=slice(f0, f1))
+            if (t0, t1) == (0, case['T']) and case['seed'] % 2:
+                del kw['preselect']['dumps']
+            elif (f0, f1) == (0, case['F']) and case['seed'] % 2:
+                del kw['preselect']['channels']
         if opts.get('via_rdb'):
             from katsdptelstate.rdb_writer import RDBWriter
             telstate['capture_block_id'] = cbid
@@ -466,7 +481,13 @@ def evaluate(ctx, cases):
                 l1 = (c.get('src_opts') or {}).get('l1')
                 if l1:
                     ctx.tag('via-source-l1-flags' + ('-legacy-layout' if l1['legacy'] else ''))
-                    vis, flags, weights = expected(dict(c, missing=dict(c['missing'], flags=l1['missing'])), spec_maps,
+                    l1m = l1['missing']
+                    if l1.get('short') and len(c['chunks']['flags'][0]) >= 2:
+                        ctx.tag('via-source-l1-flags-fewer-dumps')
+                        last = len(c['chunks']['flags'][0]) - 1
+                        l1m = [g for g in l1m if g[0] < last] + [
+                            [last] + list(r) for r in itertools.product(*[range(len(x)) for x in c['chunks']['flags'][1:]])]
+                    vis, flags, weights = expected(dict(c, missing=dict(c['missing'], flags=l1m)), spec_maps,
                                                    flags_stored=l1_flags_array(c))
                 else:
                     vis, flags, weights = expected(c, spec_maps)
